@@ -1060,7 +1060,10 @@ def r23(ctx):
         for nid, d, rhs, op, lhs in asg:
             if lhs is None or fn.key(lhs) != 'this.m_infoLen' or op != '=' or rhs is None:
                 continue
-            v = fn.val(rhs)
+            r_ = fn.strip(rhs, casts=True)
+            while fn.nodes.get(r_, {}).get('k') == 'BinaryOperator' and fn.nodes[r_].get('op') == '=':      # a = b = constant
+                r_ = fn.strip(fn.nodes[r_]['rhs'], casts=True)
+            v = fn.val(r_)
             if v is None:
                 continue
             ctx.touch(fn)
@@ -1072,7 +1075,7 @@ def r23(ctx):
     a_ok = all(a for f, n, a in arm)
     e_ok = all(a for f, n, a in end)
     for fn, nid, acc in arm:
-        ctx.ob('C14.R23', fn, nid, acc or e_ok, 'response armed (m_infoLen = %s)' % fn.val(fn.nodes[nid]['rhs']),
+        ctx.ob('C14.R23', fn, nid, acc or e_ok, 'response armed (m_infoLen = non-zero constant)',
                'write position reset with it (or with every store that ends a response): %s' % (acc or e_ok))
     if not a_ok and not e_ok:
         for fn, nid, acc in end:
